@@ -221,6 +221,30 @@ func init() {
 					})
 					return w, st.invariant, st.final
 				}},
+			{Name: "e: writer x 2 batches while every LowerLevelUpdate fails, Close from a second thread",
+				Build: func() (*World, func() *Violation, func(string) []Violation) {
+					w, st := c16World(Config{Backing: "map", MinMergePct: 100, MaxPre: 1})
+					if w.infra != "" {
+						return w, nil, st.final
+					}
+					moss.VerifWrapLLU(w.coll, func(orig moss.LowerLevelUpdate) moss.LowerLevelUpdate {
+						return func(h moss.Snapshot) (moss.Snapshot, error) {
+							vs.Yield("llu-failing")
+							return nil, errStall
+						}
+					})
+					st.spawn("writer", func() {
+						for j := 1; j <= 2; j++ {
+							st.call(fmt.Sprintf("ExecuteBatch#w.%d", j), func() (string, error) { return setBatch(w.coll, "k", fmt.Sprint(j)) })
+						}
+					})
+					st.spawn("closer", func() {
+						st.call("Close#1", func() (string, error) { return "", w.coll.Close() })
+						st.closed = st.ev
+						w.closedColl = true
+					})
+					return w, st.invariant, st.final
+				}},
 			{Name: "d: after Close has returned: NewBatch, Snapshot, Get, ExecuteBatch(non-empty), ExecuteBatch(empty), NotifyMerger(sync)",
 				Build: func() (*World, func() *Violation, func(string) []Violation) {
 					w, st := c16World(Config{Backing: "store", MinMergePct: 100, MaxPre: 1})
